@@ -172,6 +172,17 @@ def build_inputs(tier):
                 cases.append(("backslash-only-line", "\n".join(lines[:i] + ["\\"] + [ind + "  " + lines[i].lstrip()] + lines[i + 1 :])))
                 cases.append(("backslash-only-line", "\n".join(lines[:i] + [ind + "\\"] + [ind + "    " + lines[i].lstrip()] + lines[i + 1 :])))
                 break
+    # binding-target spellings: wrappers (parentheses, brackets, tuple commas, stars) applied up to twice to a few atoms, in every
+    # binding context; CPython decides which are legal
+    atoms = ["a", "*a", "a.b", "a[0]", "()", "1", "f()", "a, b", "*a, b"]
+    wraps = ["{}", "({})", "[{}]", "({},)", "*{},", "x, {}", "({}), y"]
+    ctxs = ["{} = v\n", "for {} in v: pass\n", "with c as {}: pass\n", "[0 for {} in v]\n", "del {}\n", "{} += 1\n", "{}: int = 1\n", "v = {} = w\n", "({} := 1)\n"]
+    for a in atoms:
+        for w1 in wraps:
+            for w2 in wraps:
+                t = w2.format(w1.format(a))
+                for c in (ctxs if tier != "quick" else ctxs[:5]):
+                    cases.append(("target-form", c.format(t)))
     for s in mutate.indent_histories(r, 400 * quick_scale() if tier == "quick" else 20000):
         cases.append(("indent-history", s))
     for rc in corpus.regress("C02"):
